@@ -31,6 +31,8 @@ def build(ck):
 
 # ---------------------------------------------------------------------------------- weights
 def w_int(r):
+    if r.chance(1, 40):
+        return -0.0           # passes add's `w < 0` test; a zero weight with the sign bit set
     return 0.0 if r.chance(1, 4) else float(r.range(1, 8))
 
 
@@ -86,7 +88,12 @@ def w_mixed(r):
     return math.ldexp(float(r.range(1, 64)), -60)
 
 
-WGENS = {"int": w_int, "dyadic": w_dyadic, "ratio": w_ratio, "nonrep": w_nonrep, "denormal": w_denormal,
+def w_wild(r):
+    """outside the contract: NaN, infinities, overflowing sums (and negative updates, see gen_nonfinite)"""
+    return r.choice([float("inf"), float("nan"), 1e308, 1.7e308, 1.0, 0.0, 2.0, -0.0, 5e-324])
+
+
+WGENS = {"wild": w_wild, "int": w_int, "dyadic": w_dyadic, "ratio": w_ratio, "nonrep": w_nonrep, "denormal": w_denormal,
          "tiny60": w_tiny(-60, 12), "tiny200": w_tiny(-200, 12), "tinysub": w_tiny(-1066, 4),
          "tinysubint": w_tiny(-1073, 0), "huge300": w_tiny(300, 12), "mixed": w_mixed}
 TINY_MODES = ("tiny60", "tiny200", "tinysub", "tinysubint", "huge300")
@@ -226,6 +233,22 @@ def gen_random(rng, nops, mode):
             g.wq()
         elif k < 98:
             g.clear()
+            if rng.chance(1, 2):
+                g.lines.append("emp")
+        elif k < 99 and rng.chance(1, 2):
+            j = rng.below(5)
+            if j == 0:
+                g.lines.append("emp")
+            elif j == 1:
+                g.lines.append("at %d" % rng.below(len(g.order) + 2))
+            elif j == 2:
+                g.lines.append("print")
+            else:
+                kk = rng.choice([0, 1, 2, 3, 4, 5, 8, 9])
+                ws = [g.wg(rng) for _ in range(kk)]
+                if ws and rng.chance(1, 8):
+                    ws[0] = -1.0                                  # rejected by the first add of the constructor
+                g.lines.append(("bulk %d %s" % (kk, " ".join(map(B, ws)))).strip())
         elif k < 99:
             g.add(-1.0 * rng.range(1, 5))                       # rejected
         else:
@@ -247,7 +270,12 @@ def gen_remove_all_positions(rng, n, mode, second=False):
         for _ in range(n):
             g.add()
         base = g.next - n
+        moved = g.order[-1]
         g.rm(base + p)
+        if g.order and moved != base + p:
+            g.wq(moved)                 # the element swapped into the hole: its handle must still address it
+            if rng.chance(1, 2):
+                g.upd(moved)
         g.sweep(ulps=False)
         g.smp(1.0)
         if second and g.order:
@@ -316,6 +344,67 @@ def gen_zero_toggle(rng, mode):
     return g.lines
 
 
+def gen_nonfinite(rng):
+    """outside the weight contract: NaN / infinite weights, sums that overflow, negative updates (update() does not
+    reject them), NaN sampling values.  Demanded: no out-of-storage access, size / handles / index_ / stored weights
+    exact; nothing about which element a sample returns."""
+    g = Gen(rng, "wild")
+    nan = float("nan")
+    for _ in range(rng.choice([10, 40, 120])):
+        n = len(g.order)
+        k = rng.below(100)
+        if k < (40 if n < 20 else 10):
+            g.add()
+        elif k < 55:
+            g.upd(w=rng.choice([-1.0, -5e-324, float("-inf"), nan, float("inf"), 1.0, 0.0]))
+        elif k < 68:
+            g.rm()
+        elif k < 90:
+            g.smp(rng.choice([0.0, 1.0, 0.5, nan, rng.unit(), math.nextafter(1.0, 0.0), 5e-324]))
+        elif k < 94:
+            g.wq()
+        elif k < 96:
+            g.lines.append("print")
+        elif k < 98:
+            g.lines.append("at %d" % rng.below(n + 2))
+        else:
+            g.clear()
+    for h in list(g.order):
+        g.wq(h)
+    return g.lines
+
+
+def gen_grow_shrink(rng, top, mode):
+    """sizes 1..top and back, crossing every 2^k and 2^k +- 1: after each step sample at r = 1, just below 1 and 0, read
+    the size; shrink from the back, from the front or from the middle."""
+    g = Gen(rng, mode)
+    for _ in range(top):
+        g.add()
+        n = len(g.order)
+        if n & (n - 1) == 0 or (n - 1) & (n - 2) == 0 or (n + 1) & n == 0 or rng.chance(1, 6):
+            g.smp(1.0)
+            g.smp(math.nextafter(1.0, 0.0))
+            g.smp(0.0)
+            g.lines.append("emp")
+    how = rng.choice(["back", "front", "middle", "random"])
+    while g.order:
+        n = len(g.order)
+        h = {"back": g.order[-1], "front": g.order[0], "middle": g.order[n // 2], "random": rng.choice(g.order)}[how]
+        moved = g.order[-1]
+        g.rm(h)
+        if g.order and moved != h:
+            g.wq(moved)                 # the handle of the element that was swapped into the hole still works
+            if rng.chance(1, 3):
+                g.upd(moved)
+        n = len(g.order)
+        if n and (n & (n - 1) == 0 or (n - 1) & (n - 2) == 0 or (n + 1) & n == 0 or rng.chance(1, 8)):
+            g.smp(1.0)
+            g.smp(math.nextafter(1.0, 0.0))
+            g.sweep(ulps=False, cap=12)
+    g.lines += ["emp", "smp " + B(0.5), "add " + B(1.0), "emp", "smp " + B(1.0), "print"]      # clear-by-removal, then reuse
+    return g.lines
+
+
 def rescale(script, k):
     """multiply every weight of the script by 2^k; None if that is not exact for some weight
     (overflow / underflow).  r values are scale-invariant."""
@@ -369,8 +458,12 @@ def well_formed(t):
         return len(t) == 2 and nat(t[1])
     if t[0] == "smp":
         return len(t) == 2 and bits(t[1])
-    if t[0] == "clear":
+    if t[0] in ("clear", "emp", "print"):
         return len(t) == 1
+    if t[0] == "at":
+        return len(t) == 2 and nat(t[1])
+    if t[0] == "bulk":
+        return len(t) >= 2 and nat(t[1]) and len(t) == 2 + int(t[1]) and all(bits(x) for x in t[2:])
     return False
 
 
@@ -415,8 +508,11 @@ class Oracle:
 
     def __init__(self, cells=True):
         self.cells = cells    # check the upper tree rows against the exact sums (internal invariant)
+        self.wild = False     # a NaN / infinite / negative weight entered since the tree was last empty: outside the
+                              # contract -- only memory safety, size, handles, index_ and the stored weights are demanded
         self.kind = "spec"    # kind of the last failure returned by step()
         self.spec = {}        # handle -> weight (float)
+        self.bits = {}        # handle -> the weight's bit pattern as given
         self.next = 0
         self.low = None       # smallest lowest-set-bit exponent of a non-zero weight since last empty
         self.M = Fraction(0)  # twice the largest sum of |weights| since last empty
@@ -434,19 +530,29 @@ class Oracle:
 
     def pre_mut(self):
         if not self.spec:                      # the tree was cleared: no history left in it
+            self.wild = False
             self.low, self.M = None, Fraction(0)
             self.ids, self.S, self.budget = [], [], []
 
     def post_mut(self, w=None):
+        if w is not None and (math.isinf(w) or math.isnan(w) or w < 0):
+            self.wild = True
+        if self.wild:
+            return
         if w is not None and w != 0 and not (math.isinf(w) or math.isnan(w)):
             e = low_bit_exp(w)
             self.low = e if self.low is None else min(self.low, e)
         tot = sum(Fraction(abs(v)) for v in self.spec.values())
+        if 4 * tot >= Fraction(2) ** 1023:     # sums (or the transient parent + weightChange) leave the double range
+            self.wild = True
+            return
         self.M = max(self.M, 2 * tot)
 
     def rebudget(self, order):
         """after an edit: new content ids / sums / budgets for the tree over `order` (the implementation's
         element order, already checked to be a permutation of the surviving handles)."""
+        if self.wild:
+            return
         if not order:
             self.ids, self.S, self.budget = [], [], []
             return
@@ -471,6 +577,66 @@ class Oracle:
             bud.append(row)
         self.ids, self.S, self.budget = ids, S, bud
 
+    def check_bulk(self, res, bits, ws):
+        """PDF(data, weights): a fresh structure holding exactly these elements, in order."""
+        if not res.startswith("bulk "):
+            return "PDF(data, weights) answered %r" % res[:60]
+        try:
+            n, order, ix, rows = parse_dump(res[5:])
+        except Exception as e:  # noqa
+            return "unparsable dump of the constructed PDF (%r)" % (e,)
+        k = len(ws)
+        if n != k or order != list(range(k)) or ix != [str(i) for i in range(k)]:
+            return "PDF(data, weights) with %d elements holds n=%d order=%s index_=%s" % (k, n, order, ",".join(ix))
+        if k == 0:
+            return "constructed PDF of no elements keeps tree rows" if rows else None
+        want = [k]
+        while want[-1] > 1:
+            want.append((want[-1] + 1) // 2)
+        if [len(r) for r in rows] != want:
+            return "constructed PDF: row sizes %s, expected %s" % ([len(r) for r in rows], want)
+        if rows[0] != bits:
+            return "constructed PDF: leaf row differs from the given weights"
+        if all(math.isfinite(w) for w in ws):
+            scale = sum(abs(w) for w in ws)
+            for lvl in range(1, len(rows)):
+                for j, vb in enumerate(rows[lvl]):
+                    ch = [F(str(x)) for x in rows[lvl - 1][2 * j:2 * j + 2]]
+                    if not abs(F(str(vb)) - sum(ch)) <= 1e-9 * scale + 5e-324:
+                        return "constructed PDF: cell row %d col %d = %r but its children sum to %r" % (lvl, j, F(str(vb)), sum(ch))
+        return None
+
+    @staticmethod
+    def check_print(printed, order, rows):
+        """printTree(): `(data,weight) ...` then one line per upper row (default stream precision: 6 significant digits)."""
+        lines = [l for l in printed.split("/")]
+        if not order:
+            return None if printed.strip("/ ") == "" else "printTree of an empty structure printed %r" % printed[:60]
+
+        def close(txt, bits):
+            v = F(str(bits))
+            try:
+                p = float(txt)
+            except ValueError:
+                return False
+            if math.isnan(v) or math.isnan(p):
+                return math.isnan(v) and math.isnan(p)
+            if math.isinf(v) or math.isinf(p):
+                return v == p
+            return abs(p - v) <= 2e-5 * abs(v) + 1e-320
+        first = lines[0].split()
+        if len(first) != len(order):
+            return "printTree lists %d elements, the structure holds %d" % (len(first), len(order))
+        for pos, tok in enumerate(first):
+            dtxt, _, wtxt = tok.strip("()").partition(",")
+            if dtxt != str(order[pos]) or not close(wtxt, rows[0][pos]):
+                return "printTree shows %s at position %d, the structure holds element %d with weight %r" % (tok, pos, order[pos], F(str(rows[0][pos])))
+        for lvl in range(1, len(rows)):
+            toks = lines[lvl].split() if lvl < len(lines) else []
+            if len(toks) != len(rows[lvl]) or not all(close(a, b) for a, b in zip(toks, rows[lvl])):
+                return "printTree row %d is %r, the tree row holds %s" % (lvl, " ".join(toks)[:80], [F(str(b)) for b in rows[lvl]][:8])
+        return None
+
     def step(self, line, out):
         """returns None or a failure description."""
         t = line.split()
@@ -478,6 +644,7 @@ class Oracle:
             return None if out == "bad-op" else "ill-formed line not answered by bad-op: %r" % out
         if out == "bad-op":
             return "bad-op on a well-formed line"
+        out, _, printed = out.partition(" || ")
         res, sep, dump = out.partition(" | ")
         if not sep:
             return "unparsable output line"
@@ -485,6 +652,23 @@ class Oracle:
         exp = None
         sample = None
         mutated = False
+        at = None
+        if op == "emp":
+            exp = "e=%d sz=%d els=%d" % (0 if self.spec else 1, len(self.spec), len(self.spec))
+        elif op == "at":
+            at = int(t[1])
+            if at >= len(self.spec):
+                exp = "oob"
+        elif op == "print":
+            exp = "ok"
+        elif op == "bulk":
+            ws = [F(x) for x in t[2:]]
+            if any(w < 0 for w in ws):
+                exp = "err-neg"
+            else:
+                f = self.check_bulk(res, [int(x) for x in t[2:]], ws)
+                if f:
+                    return f
         if op == "add":
             w = F(t[1])
             if w < 0:
@@ -492,6 +676,7 @@ class Oracle:
             else:
                 self.pre_mut()
                 self.spec[self.next] = w
+                self.bits[self.next] = int(t[1])
                 exp = "h=%d" % self.next
                 self.next += 1
                 self.post_mut(w)
@@ -501,6 +686,7 @@ class Oracle:
             if h in self.spec:
                 self.pre_mut()
                 self.spec[h] = F(t[2])
+                self.bits[h] = int(t[2])
                 exp = "ok"
                 self.post_mut(F(t[2]))
                 mutated = True
@@ -517,7 +703,7 @@ class Oracle:
                 exp = "dead"
         elif op == "w":
             h = int(t[1])
-            exp = ("w=" + B(self.spec[h])) if h in self.spec else "dead"
+            exp = ("w=%d" % self.bits[h]) if h in self.spec else "dead"
         elif op == "clear":
             self.spec = {}
             exp = "ok"
@@ -529,7 +715,7 @@ class Oracle:
             elif r < 0 or r > 1:
                 exp = "err-range"
             else:
-                sample = r
+                sample = r        # a NaN r passes the code's range test (both comparisons are false)
         if exp is not None and res != exp:
             return "result %r, the abstract map says %r" % (res, exp)
         try:
@@ -543,6 +729,12 @@ class Oracle:
             return "stored elements %s differ from the surviving handles %s" % (order, sorted(self.spec))
         if ix != [str(i) for i in range(n)]:
             return "an element's index_ does not equal its position: %s" % ",".join(ix)
+        if at is not None and at < len(self.spec) and res != "d=%d" % order[at]:
+            return "operator[](%d) returned %s, the element at that position is %d" % (at, res, order[at])
+        if op == "print":
+            f = self.check_print(printed, order, rows)
+            if f:
+                return f
         if mutated:
             self.rebudget(order)
         # ---- tree shape
@@ -556,15 +748,15 @@ class Oracle:
             if [len(r) for r in rows] != want:
                 return "tree row sizes %s, expected %s" % ([len(r) for r in rows], want)
             # ---- leaves are exactly the surviving weights, in element order
-            if rows[0] != [int(B(self.spec[h])) for h in order]:
+            if rows[0] != [self.bits[h] for h in order]:
                 return "leaf row differs from the surviving elements' weights"
             # ---- sums
-            exact_rows = [[Fraction(self.spec[h]) for h in order]]
+            exact_rows = [[Fraction(0) if self.wild else Fraction(self.spec[h]) for h in order]]
             while len(exact_rows[-1]) > 1:
                 c = exact_rows[-1]
                 exact_rows.append([sum(c[2 * j:2 * j + 2], Fraction(0)) for j in range((len(c) + 1) // 2)])
             exact = self.exact
-            for lvl in range(1, len(rows) if self.cells else 0):
+            for lvl in range(1, len(rows) if (self.cells and not self.wild) else 0):
                 for j, bits in enumerate(rows[lvl]):
                     v = F(str(bits))
                     if math.isnan(v) or math.isinf(v):
@@ -586,12 +778,15 @@ class Oracle:
             if h not in self.spec:
                 return "sample returned handle %d which is not a surviving element" % h
             i = order.index(h)
+            r = sample
+            if self.wild or math.isnan(r):
+                self.bump("smp:outside-contract(nan/inf/negative weight or NaN r): only a surviving element demanded")
+                return None
             ws = [Fraction(self.spec[x]) for x in order]
             tot = sum(ws)
             prefix = [Fraction(0)]
             for wv in ws:
                 prefix.append(prefix[-1] + wv)
-            r = sample
             if tot == 0:
                 self.bump("smp:total-zero")
                 return None
@@ -653,9 +848,31 @@ def oracle(script, out, rc=0, err="", cells=True):
 
 
 # ---------------------------------------------------------------------------------- the check
+_NUM = None
+
+
+def canon(line):
+    """for the model/implementation diff: drop printTree's text (` || …`, checked by the oracle) and print every NaN
+    bit pattern as `nan` (which NaN payload an addition of two NaNs keeps is the compiler's choice of operand order)."""
+    global _NUM
+    if _NUM is None:
+        import re
+        _NUM = re.compile(r"\d{16,20}")
+    line = line.partition(" || ")[0]
+
+    def f(m):
+        v = int(m.group(0))
+        return "nan" if v < (1 << 64) and (v & 0x7FFFFFFFFFFFFFFF) > 0x7FF0000000000000 else m.group(0)
+    return _NUM.sub(f, line)
+
+
 def run_script(ck, hbin, script):
     impl, rc, err, model = ck.run_pair(hbin, DRIVER, script)
     return impl or [], rc, err, model
+
+
+def diff_lines(ck, impl, model):
+    return ck.first_diff([canon(x) for x in impl], [canon(x) for x in model])
 
 
 def record_of(script, fail):
@@ -771,7 +988,7 @@ def judge(ck, hbin, script, tag, result):
     for k, v in stats.items():
         ck.count(k, v)
     ck.drift_events += stats.get("smp:zero-weight-drawn-within-rounding-bound", 0)
-    d = ck.first_diff(impl, model)
+    d = diff_lines(ck, impl, model)
     if fail is None and d is not None:
         found = targeted_search(ck, hbin, script, d)
         if found:
@@ -810,12 +1027,12 @@ def judge(ck, hbin, script, tag, result):
         def still(lines):
             s = [script[0]] + lines
             o, r, e, m = run_script(ck, hbin, s)
-            return ck.first_diff(o, m) is not None
+            return diff_lines(ck, o, m) is not None
         small = [script[0]] + core.ddmin(script[1:], still)
         o, r, e, m = run_script(ck, hbin, small)
         ck.report({"engine": "pdf", "what": "model/implementation disagreement"}, script=small, expected=m, observed=o,
                   found_input=False, engine="pdf",
-                  obligation="correspondence pdf: PDF.h vs OmplModel.Model.Pdf (first differing line %s)" % ck.first_diff(o, m))
+                  obligation="correspondence pdf: PDF.h vs OmplModel.Model.Pdf (first differing line %s)" % diff_lines(ck, o, m))
         ck.log("correspondence disagreement at line %d; the boundary/removal search found no property failure" % d)
         return False
     return True
@@ -1235,7 +1452,7 @@ class ProjProblem(EstProblem):
         p.cpa = None
         for ln in lines:
             t = ln.split()
-            if t[0] == "projest":
+            if t[0] in ("projest", "sbl", "cest"):
                 p.dim = int(t[1])
             if t[0] == "proj":
                 k = int(t[1])
@@ -1736,8 +1953,337 @@ def corpus_dir(sub):
     return out
 
 
+# ================================================================================== fifth engine: SBL's cell PDFs (remove + re-add)
+# geometric::SBL (not anchored by C12, but a PDF user whose protocol differs most from EST's): cells shrink when lazily
+# validated motions are removed (`update(elem_, 1.0/size)`), empty cells leave the PDF (`remove(elem_)`: swap with the last
+# leaf while every other cell keeps its elem_ handle) and are re-created (`add(cell, 1.0)`).  The harness calls the real
+# planner's protected addMotion / removeMotion / selectMotion through a derived class (ops mode) or runs solve() (run mode)
+# and dumps both trees' grids + PDFs.  Oracle: an independent bookkeeping of motions -> cells in Python; the PDF model
+# (drv_pdf) is run on the add/update/remove protocol that bookkeeping implies and must reproduce the dumped PDF bit for bit,
+# element order included.
+def build_sbl(ck):
+    return ck.build_harness("sbl", ["sbl.cpp"], link_ompl=True)
+
+
+def sbl_parse_tree(txt):
+    t = txt.split()
+    d = {"size": int(t[1][5:]), "grid": int(t[2][5:]), "n": int(t[4][2:]), "ix": [x for x in t[5][3:].split(",") if x]}
+    nrows = int(t[6][5:])
+    d["rows"] = []
+    for tok in t[7:7 + nrows]:
+        ln, _, vals = tok[1:-1].partition(":")
+        d["rows"].append([int(v) for v in vals.split(",") if v])
+    d["pdfline"] = ("n=%d ix=%s rows=%d %s" % (d["n"], t[5][3:], nrows, " ".join(t[7:7 + nrows]))).strip()
+    cells = []
+    ctxt = t[7 + nrows][6:] if len(t) > 7 + nrows else ""
+    for c in [x for x in ctxt.split(";") if x]:
+        co, cnt, back, look, ms = c.split(":")
+        cells.append({"coord": tuple(int(x) for x in co.split(",")), "count": int(cnt), "back": back, "look": look,
+                      "motions": [x for x in ms.split(",") if x]})
+    d["cells"] = cells
+    return d
+
+
+def sbl_check_tree(d, expect_cells, live, name):
+    """expect_cells: coord -> list of motion ids (ops mode) or None (run mode: recomputed by the caller)"""
+    n = d["n"]
+    if d["grid"] != n:
+        return "%s: the grid has %d cells, the PDF %d elements" % (name, d["grid"], n)
+    if len(d["cells"]) != n or d["ix"] != [str(i) for i in range(n)]:
+        return "%s: PDF index_ fields out of sync: %s" % (name, ",".join(d["ix"]))
+    tot = 0
+    seen = set()
+    for k, c in enumerate(d["cells"]):
+        if c["back"] != "1":
+            return "%s: the cell of PDF element %d does not point back at it (elem_)" % (name, k)
+        if c["look"] != "1":
+            return "%s: grid.getCell(%r) does not return the cell of PDF element %d" % (name, c["coord"], k)
+        if c["count"] == 0 or c["count"] != len(c["motions"]):
+            return "%s: cell %r is in the PDF with %d motions" % (name, c["coord"], c["count"])
+        if c["coord"] in seen:
+            return "%s: two cells with coordinate %r" % (name, c["coord"])
+        seen.add(c["coord"])
+        tot += c["count"]
+        if d["rows"] and d["rows"][0][k] != int(B(1.0 / c["count"])):
+            return "%s: weight of cell %r is %r but it holds %d motions: the coded weight is %r" % (
+                name, c["coord"], F(str(d["rows"][0][k])), c["count"], 1.0 / c["count"])
+    if tot != d["size"] or (live is not None and tot != live):
+        return "%s: tree.size is %d, the cells hold %d motions%s" % (name, d["size"], tot, "" if live is None else ", %d are alive" % live)
+    if n:
+        want = [n]
+        while want[-1] > 1:
+            want.append((want[-1] + 1) // 2)
+        if [len(r) for r in d["rows"]] != want:
+            return "%s: PDF row sizes %s, expected %s" % (name, [len(r) for r in d["rows"]], want)
+        for lvl in range(1, len(d["rows"])):
+            for j, vb in enumerate(d["rows"][lvl]):
+                ch = [F(str(x)) for x in d["rows"][lvl - 1][2 * j:2 * j + 2]]
+                if not abs(F(str(vb)) - sum(ch)) <= 1e-9 * max(1.0, n) + 5e-324:
+                    return "%s: PDF cell row %d col %d = %r but its children sum to %r" % (name, lvl, j, F(str(vb)), sum(ch))
+    elif d["rows"]:
+        return "%s: empty PDF keeps tree rows" % name
+    if expect_cells is not None:
+        got = {c["coord"]: c["motions"] for c in d["cells"]}
+        want = {co: [str(m) for m in ms] for co, ms in expect_cells.items() if ms}
+        if got != want:
+            return "%s: cells %r, the surviving motions call for %r" % (name, got, want)
+    return None
+
+
+def gen_sbl_ops(r, i):
+    dim = 2
+    lo, hi = [0.0, 0.0], [1.0, 1.0]
+    cpa = r.choice([1, 2, 3, 5, 12])
+    p = ProjProblem(dim, lo, hi, dim, [], 0.01, 0.0, 0.05, [0.9, 0.9], 0.05, [[0.1, 0.1]], r.range(1, 100000), 0, "ops")
+    p.comps = r.choice([[0, 1], [0], [1, 0]])
+    p.cpa = cpa
+    p.sizes = [1.0 / cpa * r.choice([1.0, 0.77]) for _ in p.comps]
+    L = p.config()
+    L[0] = "sbl 2"
+    L += ["seed %d" % p.seed, "ops"]
+    motions = {}            # id -> dict(tree, children)
+    nxt = 0
+    ops = []
+    for _ in range(r.choice([8, 25, 70, 160])):
+        k = r.below(100)
+        live = [m for m in motions]
+        if k < 55 or not live:
+            tree = r.choice(["s", "g"])
+            cand = [m for m in live if motions[m]["tree"] == tree]
+            par = r.choice(cand) if cand and r.chance(4, 5) else -1
+            x = [r.uniform(0, 1), r.uniform(0, 1)]
+            if cand and r.chance(1, 3):          # same cell as an existing motion: the update path
+                x = list(motions[r.choice(cand)]["x"])
+                x[0] = min(max(x[0] + r.uniform(-0.01, 0.01), 0.0), 1.0)
+            ops.append("add %s %d %s" % (tree, par, " ".join(map(B, x))))
+            motions[nxt] = {"tree": tree, "children": [], "x": x}
+            if par >= 0:
+                motions[par]["children"].append(nxt)
+            nxt += 1
+        elif k < 85:
+            m = r.choice(live)
+            ops.append("rm %s %d" % (motions[m]["tree"], m))
+
+            def kill(q):
+                for c in list(motions[q]["children"]):
+                    kill(c)
+                del motions[q]
+            for q in motions.values():
+                if m in q["children"]:
+                    q["children"].remove(m)
+            kill(m)
+        else:
+            ops.append("sel %s" % r.choice(["s", "g"]))
+    return p, L + ops
+
+
+def sbl_ops_one(ck, hbin, p, script):
+    """returns (failure | None, tie | None, impl)"""
+    impl, rc, err = ck.run_bin(hbin, script, timeout=300)
+    impl = impl or []
+    k0 = script.index("ops") + 1
+    ops = script[k0:]
+    motions = {}
+    cells = {"s": {}, "g": {}}                   # coord -> motion ids in vector order
+    handle = {"s": {}, "g": {}}                  # coord -> handle of the PDF model
+    hcoord = {"s": {}, "g": {}}
+    nh = {"s": 0, "g": 0}
+    pdfops = {"s": ["pdf"], "g": ["pdf"]}
+    marks = []
+    nxt = 0
+
+    def dec(tree, co, m):
+        cells[tree][co].remove(m)
+        if not cells[tree][co]:
+            pdfops[tree].append("rm %d" % handle[tree][co])
+            del cells[tree][co]
+            del handle[tree][co]
+        else:
+            pdfops[tree].append("upd %d %s" % (handle[tree][co], B(1.0 / len(cells[tree][co]))))
+
+    for i, ln in enumerate(ops):
+        if i >= len(impl):
+            tail = " ".join((err or "").strip().splitlines()[-6:])[-500:]
+            return (i, "implementation stopped at %r (exit %s): %s" % (ln, rc, tail), "crash"), None, impl
+        parts = impl[i].split(" | ")
+        if len(parts) != 3:
+            return (i, "unparsable output %r" % impl[i][:80], "spec"), None, impl
+        res = parts[0]
+        t = ln.split()
+        tree = t[1]
+        if t[0] == "add":
+            par = int(t[2])
+            x = [F(v) for v in t[3:]]
+            co = p.coord(x)
+            if res != "m=%d" % nxt:
+                return (i, "addMotion bookkeeping: result %s, expected m=%d" % (res, nxt), "spec"), None, impl
+            motions[nxt] = {"tree": tree, "coord": co, "children": []}
+            if par >= 0:
+                motions[par]["children"].append(nxt)
+            if co in cells[tree]:
+                cells[tree][co].append(nxt)
+                pdfops[tree].append("upd %d %s" % (handle[tree][co], B(1.0 / len(cells[tree][co]))))
+            else:
+                cells[tree][co] = [nxt]
+                handle[tree][co] = nh[tree]
+                hcoord[tree][nh[tree]] = co
+                nh[tree] += 1
+                pdfops[tree].append("add " + B(1.0))
+            nxt += 1
+        elif t[0] == "rm":
+            m = int(t[2])
+            if res != "ok":
+                return (i, "removeMotion of live motion %d answered %s" % (m, res), "spec"), None, impl
+            for q in motions.values():
+                if m in q["children"]:
+                    q["children"].remove(m)
+
+            def kill(q):                       # removeMotion: the motion's cell first, then its children in order
+                dec(motions[q]["tree"], motions[q]["coord"], q)
+                for c in list(motions[q]["children"]):
+                    kill(c)
+                del motions[q]
+            kill(m)
+        elif t[0] == "sel":
+            livein = [m for m in motions if motions[m]["tree"] == tree]
+            if not livein:
+                if res != "empty":
+                    return (i, "selectMotion on an empty tree answered %s" % res, "spec"), None, impl
+            elif not res.startswith("m=") or int(res[2:]) not in livein:
+                return (i, "selectMotion returned %s, the tree's motions are %s" % (res, livein[:20]), "spec"), None, impl
+        for nm, txt in (("s", parts[1]), ("g", parts[2])):
+            try:
+                d = sbl_parse_tree(txt)
+            except Exception as e:  # noqa
+                return (i, "unparsable tree dump (%r)" % (e,), "spec"), None, impl
+            f = sbl_check_tree(d, cells[nm], len([m for m in motions if motions[m]["tree"] == nm]), "tree " + nm)
+            if f:
+                return (i, f, "spec"), None, impl
+        marks.append((i, len(pdfops["s"]) - 1, len(pdfops["g"]) - 1))
+    if rc != 0:
+        return (len(ops) - 1, "harness exit code %s: %s" % (rc, (err or "")[-300:]), "crash"), None, impl
+    # ---- the PDF model on the implied protocol
+    for nm, col in (("s", 1), ("g", 2)):
+        model, rc2, _ = ck.run_bin(ck.driver(DRIVER), pdfops[nm])
+        for mk in marks:
+            i, k = mk[0], mk[col]
+            if k == 0:
+                continue
+            d = sbl_parse_tree(impl[i].split(" | ")[col])
+            ml = model[k - 1] if k - 1 < len(model) else "<missing>"
+            gt = ml.partition(" | ")[2].split()
+            got = " ".join(gt[:1] + gt[2:])
+            order = [hcoord[nm].get(int(x)) for x in (gt[1][4:].split(",") if len(gt) > 1 and gt[1][4:] else [])]
+            if got != d["pdfline"] or order != [c["coord"] for c in d["cells"]] or ml.startswith(("dead", "bad-op", "err")):
+                return None, (i, "tree %s after %r: PDF differs from the PDF model run on the add/update/remove protocol the surviving "
+                                 "motions imply: impl %s cells %s | model %s cells %s" % (nm, ops[i][:40], d["pdfline"][:160],
+                                 [c["coord"] for c in d["cells"]][:8], got[:160], order[:8])), impl
+    return None, None, impl
+
+
+def gen_sbl_run(r, i):
+    p = gen_proj_problem(r, i)
+    p.iters = r.choice([5, 40, 150, 400, 900])
+    p.thr = 0.0
+    L = p.config()
+    L[0] = "sbl %d" % p.dim
+    return p, L + ["seed %d" % p.seed, "iters %d" % p.iters, "go"]
+
+
+def sbl_run_one(ck, hbin, p, script):
+    impl, rc, err = ck.run_bin(hbin, script, timeout=300)
+    if not impl or rc != 0:
+        tail = " ".join((err or "").strip().splitlines()[-6:])[-500:]
+        return (0, "SBL harness stopped (exit %s): %s" % (rc, tail), "crash"), None, impl or []
+    parts = impl[-1].split(" | ")
+    if len(parts) != 3:
+        return (0, "unparsable output %r" % impl[-1][:80], "spec"), None, impl
+    for nm, txt in (("start tree", parts[1]), ("goal tree", parts[2])):
+        try:
+            d = sbl_parse_tree(txt)
+        except Exception as e:  # noqa
+            return (0, "unparsable tree dump (%r)" % (e,), "spec"), None, impl
+        f = sbl_check_tree(d, None, None, nm)
+        if f:
+            return (0, f, "spec"), None, impl
+        for c in d["cells"]:
+            for st in c["motions"]:
+                x = [F(v) for v in st.split("_")]
+                if p.coord(x) != c["coord"]:
+                    return (0, "%s: a motion with projection coordinate %r sits in cell %r" % (nm, p.coord(x), c["coord"]), "spec"), None, impl
+    return None, None, impl
+
+
+def sbl_jobs(ck):
+    quick = ck.tier == "quick"
+    r = ck.rng.fork("sbl")
+    out = []
+    for i in range(40 if quick else 400):
+        p, sc_ = gen_sbl_ops(r.fork("o%d" % i), i)
+        out.append(("ops", p, sc_))
+    for i in range(16 if quick else 150):
+        p, sc_ = gen_sbl_run(r.fork("r%d" % i), i)
+        out.append(("run", p, sc_))
+    return out
+
+
+def sbl_judge(ck, tag, p, script, res, eng="sbl"):
+    fail, tie, impl = res
+    ck.traces_validated += 1
+    ck.case((eng, tuple(script)), len(script) > 20)
+    ck.count(eng + ":scripts:" + tag)
+    if tag == "ops":
+        for ln in script[script.index("ops") + 1:]:
+            ck.count(eng + ":op:" + ln.split()[0])
+    ck.sample({"engine": eng, "mode": tag, "lines": len(script)})
+    if fail is not None:
+        ck.report({"engine": eng, "kind": fail[2], "what": fail[1]}, script=script, expected=None, observed=(impl or [])[-3:], engine=eng)
+        ck.log("%s cell-PDF property failure: %s" % (eng, fail[1][:300]))
+        return False
+    if tie is not None:
+        ck.disagreements += 1
+        ck.report({"engine": eng, "what": "cell PDF vs PDF model"}, script=script, expected=None, observed=[tie[1]], found_input=False,
+                  engine=eng, obligation="correspondence %s: the planner's add/update/remove protocol vs OmplModel.Model.Pdf (%s)" % (eng, tie[1][:300]))
+        ck.log("%s correspondence: %s" % (eng, tie[1][:300]))
+        return False
+    return True
+
+
+# ---------------------------------------------------------------------------------- sixth engine: control::EST's cell PDF
+# the control:: sibling of ProjEST (same add / update(elem_, 1.0/size) protocol in another class); harness/cest.cpp, same
+# dump format and oracle as the SBL engine (one tree, no removals).
+def build_cest(ck):
+    return ck.build_harness("cest", ["cest.cpp"], link_ompl=True)
+
+
+def cest_jobs(ck):
+    quick = ck.tier == "quick"
+    r = ck.rng.fork("cest")
+    out = []
+    for i in range(16 if quick else 150):
+        p, sc_ = gen_sbl_ops(r.fork("o%d" % i), i)
+        k0 = sc_.index("ops") + 1
+        ops = []
+        for ln in sc_[k0:]:
+            t = ln.split()
+            if t[0] == "add":
+                ops.append("add s -1 " + " ".join(t[3:]))
+            elif t[0] == "sel":
+                ops.append("sel s")
+        sc_ = ["cest 2"] + sc_[1:k0] + ops
+        out.append(("ops", p, sc_))
+    for i in range(8 if quick else 80):
+        p, sc_ = gen_sbl_run(r.fork("r%d" % i), i)
+        p.iters = r.choice([5, 40, 150, 400])
+        sc_ = ["cest %d" % p.dim] + [l for l in sc_[1:] if not l.startswith("iters")] [:-1] + ["iters %d" % p.iters, "go"]
+        out.append(("run", p, sc_))
+    return out
+
+
 def setup(ck):
     build(ck)
+    build_sbl(ck)
+    build_cest(ck)
     build_est(ck)
     build_projest(ck)
     build_atlas(ck)
@@ -1761,6 +2307,11 @@ def plan(ck):
             out.append(("zero-toggle-" + m, gen_zero_toggle(ck.rng.fork("zt-%s-%d" % (m, i)), m)))
     for i in range(40 if quick else 400):
         out.append(("drift", gen_drift(ck.rng.fork("drift%d" % i))))
+    for i in range(10 if quick else 100):
+        out.append(("outside-contract", gen_nonfinite(ck.rng.fork("wild%d" % i))))
+    for i, top in enumerate([9, 17, 33, 65, 66] if quick else [9, 17, 33, 65, 66, 129, 130, 257, 513, 1025]):
+        for m in (["int"] if quick else ["int", "dyadic", "nonrep"]):
+            out.append(("grow-shrink", gen_grow_shrink(ck.rng.fork("gs-%s-%d" % (m, top)), top, m)))
     for n in range(1, 34):
         ms = ["int"] if quick else ["int", "dyadic", "nonrep", "ratio"]
         for m in ms:
@@ -1798,17 +2349,21 @@ def run(ck):
     ebin = build_est(ck)
     pbin = build_projest(ck)
     abin = build_atlas(ck)
+    sbin = build_sbl(ck)
+    cbin = build_cest(ck)
     if not ck.lean_ok:
         return 0
     scripts = plan(ck)
     ejobs = est_jobs(ck)
     pjobs = projest_jobs(ck)
     ajobs = atlas_jobs(ck)
+    sjobs = [("sbl", sbin) + j for j in sbl_jobs(ck)] + [("cest", cbin) + j for j in cest_jobs(ck)]
     bad = 0
     with ThreadPoolExecutor(max_workers=14) as ex:
         eres = [ex.submit(est_one, ck, ebin, p) for p in ejobs]
         pres = [ex.submit(projest_one, ck, pbin, p) for p in pjobs]
         ares = [ex.submit(atlas_one, ck, abin, sc_) for _, sc_ in ajobs]
+        sres = [ex.submit(sbl_ops_one if tg == "ops" else sbl_run_one, ck, bin_, p_, sc_) for _e, bin_, tg, p_, sc_ in sjobs]
         results = ex.map(lambda ts: run_script(ck, hbin, ts[1]), scripts)
         for (tag, script), res in zip(scripts, results):
             if bad >= 3:
@@ -1836,10 +2391,33 @@ def run(ck):
                 continue
             if not atlas_judge(ck, abin, tag, sc_, fut.result()):
                 abad += 1
+        sbad = 0
+        for (eng, _b, tg, p_, sc_), fut in zip(sjobs, sres):
+            if sbad >= 3:
+                fut.cancel()
+                continue
+            if not sbl_judge(ck, tg, p_, sc_, fut.result(), eng):
+                sbad += 1
     return 0
 
 
 def replay(ck, data):
+    if data.get("engine") in ("sbl", "cest"):
+        sbin = build_sbl(ck) if data["engine"] == "sbl" else build_cest(ck)
+        ck.lean_build([DRIVER])
+        script = data["script"]
+        p = ProjProblem.from_script(script)
+        fail, tie, impl = (sbl_ops_one if "ops" in script else sbl_run_one)(ck, sbin, p, script)
+        for l in (impl or [])[-4:]:
+            print("impl: " + l[:400])
+        if fail:
+            print("PROPERTY FAILS: %s" % fail[1])
+            return 1
+        if tie:
+            print(tie[1])
+            return 1
+        print("no failure on the current tree")
+        return 0
     if data.get("engine") == "atlas":
         abin = build_atlas(ck)
         ck.lean_build([DRIVER])
@@ -1881,7 +2459,7 @@ def replay(ck, data):
     impl, rc, err, model = run_script(ck, hbin, script)
     mold = ck.run_bin(ck.driver(DRIVER), ["pdf old"] + script[1:])[0]
     fail, _ = oracle(script, impl, rc, err)
-    d = ck.first_diff(impl, model)
+    d = diff_lines(ck, impl, model)
     for i, ln in enumerate(script[1:]):
         print("%-34s impl:  %s" % (ln, impl[i] if i < len(impl) else "<missing>"))
         if i < len(model) and (i >= len(impl) or impl[i] != model[i]):
@@ -1906,13 +2484,25 @@ MANIFEST = {
     "design_ref": "DESIGN.md 2.12",
     "text": "Lean 4 theorems over an executable model of ompl::PDF (tree shape, index_ synchronisation and parent = sum of "
             "children preserved by add/update/remove/clear for every finite operation sequence; sample returns the least "
-            "position whose prefix sum reaches r*total, never a zero-weight element for 0<r<1, and never indexes outside "
-            "a row or data_; size/weights/handles refine an abstract handle->weight map), tied to PDF.h by bit-exact "
-            "line-by-line differential runs of the real template against the compiled model, plus an exact-Fraction "
-            "abstract-map oracle on the implementation's own outputs.",
-    "note": "Trusted: Lean kernel, the three standard axioms, the hand-written model outside the scripts the correspondence "
-            "explored, the harness. Arithmetic theorems are over exact ordered rings; IEEE rounding is executed (model at "
-            "Float, bit-compared) but proportionality under rounding is only bounded by the oracle's stated tolerance. "
-            "Weights >= 0, finite; dead handles outside the contract.",
-    "technique": "Lean 4 proof (invariants by induction over operations, descent invariant, refinement) + differential correspondence",
+            "position whose prefix sum reaches r*total, never a zero-weight element for 0<r<=1, never indexes outside a row or "
+            "data_ -- from the shape alone, so also under rounding; the pre-fix and the guarded descent agree in exact arithmetic; "
+            "size = number of live handles; size/weights/handles refine an abstract handle->weight map), tied to PDF.h by bit-exact "
+            "line-by-line differential runs of the real template (every public method: add, update, remove, sample, getWeight, "
+            "clear, size, empty, operator[], getElements, printTree, the vector constructor) against the compiled model, plus a "
+            "scale-free exact-Fraction abstract-map oracle on the implementation's own outputs.  The users of PDF are under the "
+            "same check: geometric::EST and ProjEST by full executable models on top of the PDF (and C13 Grid) model with theorems "
+            "(tree invariant, PDF holds one element per motion / cell with the coded weight for the current counts, selection in "
+            "range, truthful reports) and lock-step runs of the real planners; AtlasStateSpace::chartPDF_, geometric::SBL's and "
+            "control::EST's cell PDFs by driving the real classes, dumping their PDFs after every operation, an independent "
+            "bookkeeping oracle, and a bit-exact replay of the implied add/update/remove protocol through the PDF model "
+            "(+ theorem atlas_pdf_index_is_chart_index for the position-addressed refresh).",
+    "note": "Trusted: Lean kernel, the three standard axioms, the hand-written models outside the scripts the correspondence "
+            "explored, the harnesses (private/protected opened in their own translation units). Arithmetic theorems are over "
+            "exact ordered rings/fields; IEEE rounding is executed (models at Float, bit-compared) and proportionality under "
+            "rounding is bounded by the oracle's per-node relative budget only. Weights >= 0 and finite is the contract: with NaN / "
+            "infinite / negative (update) weights or overflowing sums only memory safety, size, handles, index_ and the stored "
+            "weights are demanded. Dead handles are outside the contract. PDF users not driven: BiEST, pSBL, Syclop, LTLPlanner, "
+            "PRM::expandRoadmap's and the multilevel samplers' local PDFs (not observable without hooks).",
+    "technique": "Lean 4 proof (invariants by induction over operations, descent invariant, refinement; planner models on top) + "
+                 "differential correspondence + protocol replay through the model",
 }
